@@ -78,6 +78,10 @@ int cpp_encrypt(int family, int alg, const unsigned char *key, const unsigned ch
 int cpp_decrypt(int family, int alg, const unsigned char *key, const unsigned char *nonce,
                 unsigned char *m, const unsigned char *c, size_t clen, const unsigned char *ad, size_t adlen);
 /* the same through the key constructors instead of default construction + set_key */
+int cpp_encrypt_ba(int family, int alg, const unsigned char *key, const unsigned char *nonce,
+                unsigned char *c, const unsigned char *m, size_t mlen, const unsigned char *ad, size_t adlen, int form, size_t presize);
+int cpp_decrypt_ba(int family, int alg, const unsigned char *key, const unsigned char *nonce,
+                unsigned char *m, const unsigned char *c, size_t clen, const unsigned char *ad, size_t adlen, int form, size_t presize);
 int cpp_encrypt_ctor(int family, int alg, const unsigned char *key, const unsigned char *nonce,
                 unsigned char *c, const unsigned char *m, size_t mlen, const unsigned char *ad, size_t adlen);
 int cpp_decrypt_ctor(int family, int alg, const unsigned char *key, const unsigned char *nonce,
